@@ -62,7 +62,8 @@ def resolve_pc(bdir, build, res):
     key = (build, m.group(1))
     if key not in _pc_cache:
         try:
-            out = subprocess.run(['addr2line', '-f', '-e', os.path.join(bdir, 'simrun-' + build), m.group(1)], stdout=subprocess.PIPE, text=True, timeout=20).stdout.split('\n')
+            # -i: the first function printed is the innermost (inlined) one, i.e. the code that actually faulted
+            out = subprocess.run(['addr2line', '-f', '-i', '-e', os.path.join(bdir, 'simrun-' + build), m.group(1)], stdout=subprocess.PIPE, text=True, timeout=20).stdout.split('\n')
             _pc_cache[key] = out[0].strip() or '??'
         except Exception: _pc_cache[key] = '??'
     res['crash_func'] = _pc_cache[key]
@@ -77,7 +78,7 @@ def dump_plan_args(bdir, build, args):
 # known findings
 # ---------------------------------------------------------------------------------------------
 def load_known():
-    p = os.path.join(VERIF, 'known_findings.json')
+    p = os.environ.get('VERIF_KNOWN') or os.path.join(VERIF, 'known_findings.json')   # VERIF_KNOWN: triage only (e.g. an empty list to see what a finding hides)
     if not os.path.exists(p): return []
     return json.load(open(p)).get('findings', [])
 
@@ -96,8 +97,9 @@ def match_known(known, prop, res):
 # minimisation
 # ---------------------------------------------------------------------------------------------
 class Minimiser:
-    def __init__(self, bdir, build, plan, oracle, budget_runs=300, budget_s=90):
+    def __init__(self, bdir, build, plan, oracle, budget_runs=300, budget_s=90, crash_func=None):
         self.bdir, self.build, self.oracle = bdir, build, oracle
+        self.crash_func = crash_func      # crashes: stay with the function that faulted (one violation class, not "any crash")
         self.best = plan; self.runs = 0; self.t0 = time.time(); self.budget_runs, self.budget_s = budget_runs, budget_s
         self.tmp = tempfile.mkdtemp(prefix='vmin-', dir=os.path.join(VERIF, 'build'))
     def ok(self): return self.runs < self.budget_runs and time.time() - self.t0 < self.budget_s
@@ -107,7 +109,11 @@ class Minimiser:
         json.dump({'plan': plan}, open(p, 'w'))
         try: code, res = simrun(self.bdir, self.build, ['--replay', p], timeout=60)
         except subprocess.TimeoutExpired: return False
-        return res.get('status') == 'violation' and res.get('oracle') == self.oracle
+        if not (res.get('status') == 'violation' and res.get('oracle') == self.oracle): return False
+        if self.crash_func and self.oracle == 'crash':
+            resolve_pc(self.bdir, self.build, res)
+            if res.get('crash_func') != self.crash_func: return False
+        return True
     def nops(self, plan): return sum(len(pr['ops']) for pr in plan['progs'])
     def run(self):
         import copy
@@ -264,7 +270,7 @@ def check_property(pid, tier, base_seed, out=sys.stdout, write_evidence=True, ex
                 out.write('KNOWN-FINDING: property=%s %s [%s; e.g. family=%s build=%s seed=%d]\n' % (pid, kn.get('title', kn['what'][:200]), kn['id'], fam, b, sd))
             reported.append({'oracle': oracle, 'build': b, 'known': kn['id'], 'runs': len(vs)})
             continue
-        mn = Minimiser(bdir, b, plan, oracle, budget_runs=(6 if oracle == 'hang' else spec.get('min_runs', 250)), budget_s=spec.get('min_s', 60))
+        mn = Minimiser(bdir, b, plan, oracle, budget_runs=(6 if oracle == 'hang' else spec.get('min_runs', 250)), budget_s=spec.get('min_s', 60), crash_func=r.get('crash_func'))
         small = mn.run()
         rp = os.path.join(replay_dir, '%s-%s-%s-%d.json' % (pid, oracle, b, sd))
         json.dump({'property': pid, 'family': fam, 'build': b, 'seed': sd, 'plan': small}, open(rp, 'w'), indent=0)
